@@ -100,7 +100,7 @@ func Gen(t *rapid.T, o GenOpts) Variant {
 	v.T = rapid.SampledFrom(Templates).Draw(t, "template")
 	valid := SigSpec{Signer: Victim}
 	otherAlgs := func() string {
-		if rapid.IntRange(0, 5).Draw(t, "weird") == 0 {
+		if rapid.IntRange(0, 5).Draw(t, "weird") == 5 {
 			return rapid.SampledFrom(weirdAlgs).Draw(t, "alg")
 		}
 		return rapid.SampledFrom(AllAlgs).Draw(t, "alg")
@@ -213,13 +213,13 @@ func Gen(t *rapid.T, o GenOpts) Variant {
 				JWK:    rapid.SampledFrom([]string{"", "", "omit", "signer-pub", "signer-priv", "victim-pub", "attacker-pub", "attacker-priv", "fresh-pub"}).Draw(t, "jwk"),
 				Inject: subset(t, "inject", injectPool, 2),
 			}
-			if rapid.IntRange(0, 2).Draw(t, "setalg") == 0 {
+			if rapid.IntRange(0, 2).Draw(t, "setalg") == 2 {
 				s.Alg = otherAlgs()
 			}
 			if s.Signer == "hmac" {
 				s.HKey = rapid.SampledFrom(hkeys).Draw(t, "hkey")
 			}
-			if rapid.IntRange(0, 4).Draw(t, "setform") == 0 {
+			if rapid.IntRange(0, 4).Draw(t, "setform") == 4 {
 				s.SigForm = rapid.SampledFrom(sigForms).Draw(t, "form")
 			}
 			if v.Ser != "compact" || n > 1 {
@@ -227,12 +227,12 @@ func Gen(t *rapid.T, o GenOpts) Variant {
 			}
 			v.Sigs = append(v.Sigs, s)
 		}
-		if rapid.IntRange(0, 3).Draw(t, "setmut") == 0 {
+		if rapid.IntRange(0, 3).Draw(t, "setmut") == 3 {
 			v.Mut = genMut(t)
 		}
 	}
 	// compose: encoding games on top of anything compact (a re-encoding never turns a bad token into a good one)
-	if v.T != "valid" && v.T != "reencode" && v.Ser == "compact" && len(v.Sigs) == 1 && rapid.IntRange(0, 5).Draw(t, "addenc") == 0 {
+	if v.T != "valid" && v.T != "reencode" && v.Ser == "compact" && len(v.Sigs) == 1 && rapid.IntRange(0, 5).Draw(t, "addenc") == 5 {
 		v.Enc = genEnc(t, 2)
 	}
 	return v
